@@ -733,6 +733,76 @@ pub fn gen_c15(seed: u64, thorough: bool, _only: Option<u64>, out: &mut Out) {
   }
 }
 
+fn json_ev_obs(js: &str) -> String {
+  match guarded(|| serde_json::from_str::<Evaluation>(js).ok()) {
+    Some(Some(e)) => format!(
+      "ok {} {} {}",
+      hex(e.output.as_bytes()),
+      e.proof.as_ref().map_or("-".to_string(), |p| hex(&p.serialize_to_bincode().unwrap())),
+      hex(serde_json::to_string(&e).unwrap().as_bytes())
+    ),
+    Some(None) => "err".into(),
+    None => "panic".into(),
+  }
+}
+fn json_pt_obs(js: &str) -> String {
+  match guarded(|| serde_json::from_str::<Point>(js).ok()) {
+    Some(Some(p)) => format!("ok {} {}", hex(p.as_bytes()), hex(serde_json::to_string(&p).unwrap().as_bytes())),
+    Some(None) => "err".into(),
+    None => "panic".into(),
+  }
+}
+
+/// JSON forms of points and evaluations: what serde_json writes, and damaged variants of it that both the
+/// implementation and the canonical-grammar model must refuse
+pub fn gen_json(seed: u64, thorough: bool, out: &mut Out) {
+  let mut r = Prng::for_case(seed, "C15j", 0);
+  let s = Server::new(vec![1u8, 2]).expect("server");
+  for i in 0..(if thorough { 60 } else { 8 }) {
+    let (bp, _) = blind(&r.bytes(1 + (i % 7)));
+    let ev = s.eval(&Point::from(&bp[..]), 1 + (i % 2) as u8, i % 3 != 0).unwrap();
+    let js = serde_json::to_string(&ev).unwrap();
+    let o = json_ev_obs(&js);
+    let want_prefix = format!("ok {} ", hex(ev.output.as_bytes()));
+    out.case(format!("json.ev {}", hex(js.as_bytes())), o.clone(), if o.starts_with(&want_prefix) && o.ends_with(&hex(js.as_bytes())) { Ok(()) } else { Err("evaluation does not survive its JSON form".into()) });
+    let pj = serde_json::to_string(&ev.output).unwrap();
+    let po = json_pt_obs(&pj);
+    out.case(format!("json.pt {}", hex(pj.as_bytes())), po.clone(), if po == format!("ok {} {}", hex(ev.output.as_bytes()), hex(pj.as_bytes())) { Ok(()) } else { Err("point does not survive its JSON form".into()) });
+    // damaged variants: every truncation (sampled), a number out of range, a leading zero, a short / long output,
+    // a non-canonical scalar, a missing bracket
+    let mut bad: Vec<String> = vec![];
+    for cut in [1usize, 10, 11, 30, 54, 55, 60, 66, js.len() / 2, js.len() - 2, js.len() - 1] {
+      if cut < js.len() {
+        bad.push(js[..cut].to_string());
+      }
+    }
+    bad.push(js.replacen(&js[11..15], "", 1));
+    bad.push(js.replacen(&js[11..12], "!", 1));
+    bad.push(format!("{}AAAA{}", &js[..55], &js[55..]));
+    if let Some(k) = js.find("\"c\":[") {
+      let start = k + 5;
+      let end = start + js[start..].find(',').unwrap();
+      bad.push(format!("{}256{}", &js[..start], &js[end..]));
+      bad.push(format!("{}0{}{}", &js[..start], &js[start..end], &js[end..]));
+      bad.push(format!("{}-1{}", &js[..start], &js[end..]));
+      bad.push(js.replacen("],\"s\"", ",7],\"s\"", 1));
+      bad.push(js.replacen("],\"s\"", ",\"s\"", 1));
+      // c replaced by the non-canonical encoding of ell (= 0 mod ell)
+      let ell: [u8; 32] = [0xed, 0xd3, 0xf5, 0x5c, 0x1a, 0x63, 0x12, 0x58, 0xd6, 0x9c, 0xf7, 0xa2, 0xde, 0xf9, 0xde, 0x14, 0, 0, 0, 0, 0, 0, 0, 0, 0, 0, 0, 0, 0, 0, 0, 0x10];
+      let arr = ell.iter().map(|b| b.to_string()).collect::<Vec<_>>().join(",");
+      let close = start + js[start..].find(']').unwrap();
+      bad.push(format!("{}{}{}", &js[..start], arr, &js[close..]));
+    }
+    bad.push(pj[..pj.len() - 1].to_string());
+    for b in bad {
+      let is_pt = b.starts_with('[');
+      let o = if is_pt { json_pt_obs(&b) } else { json_ev_obs(&b) };
+      let v = if o == "err" { Ok(()) } else if o == "panic" { Err("JSON decoding panicked".to_string()) } else { Err("damaged JSON was accepted".to_string()) };
+      out.case(format!("{} {}", if is_pt { "json.pt" } else { "json.ev" }, hex(b.as_bytes())), o, v);
+    }
+  }
+}
+
 /// C09, ppoprf part: eval / verify on undecodable points, missing proofs, bad public keys
 pub fn gen_c09(seed: u64, _thorough: bool, out: &mut Out) {
   let mut r = Prng::for_case(seed, "C09p", 0);
